@@ -112,9 +112,14 @@ class ConfidenceMonitor:
         data = img["im"].data
         if data.ndim == 3:
             data = data[list(img.coords["band_im"].data).index(bc)]
+        # the implementation squares the float32 samples in float32 before averaging in float64: the rounding of those
+        # squares (none for integer samples below 4096, up to 128 at level 60000) bounds what it can know of E[x^2]
+        sq_err = np.abs((data.astype(np.float32) ** 2).astype(np.float64) - data.astype(np.float64) ** 2)
         data = data.astype(np.float64)
         rows, cols = data.shape
         h = (ws - 1) // 2
+        lmax2 = float(np.abs(data).max()) ** 2
+        d64 = 4e-16 * (rows * rows + cols * cols * ws) * lmax2  # float64 cumulative sums of the integral images
         for r in range(rows):
             for c in range(cols):
                 g = float(band[r, c])
@@ -125,7 +130,8 @@ class ConfidenceMonitor:
                     continue
                 win = data[r - h:r + h + 1, c - h:c + h + 1]
                 exp = float(win.std())
-                tol = 1e-3 * max(1.0, float(np.abs(win).max()))
+                dvar = float(sq_err[r - h:r + h + 1, c - h:c + h + 1].mean()) + d64
+                tol = (math.sqrt(dvar) if exp * exp <= dvar else dvar / exp) + max(1e-5, 4e-7 * exp)
                 if not math.isfinite(g) or abs(g - exp) > tol:
                     self.v("std_intensity_value", ev, side, pixel=[r, c], got=g, expected=exp)
                     return
